@@ -157,26 +157,40 @@ def _api(S, spec):
         lim_vals['t1'] = (100, 2 * G, 2 * G)
     allocs, avals = [], []
     for i in range(spec['n']):
+        odd = False
         if i == 0:
             c = 100 * S.choice('alloc%d_cpu' % i, 2)
-            m = S.choice('alloc%d_memG' % i, 3)
+            m = S.choice('alloc%d_memG' % i, 4 if spec['n'] == 1 else 3)
             has_t1 = S.flag('alloc%d_has_t1' % i)
+            odd = m == 3
         else:
             c, m, has_t1 = 50, 1, True      # the second one is fixed
         al = {'_id': 'tenant/alloc%d/cell' % i, 'cpu': '%d%%' % c,
               'memory': '%dG' % m, 'disk': '%dM' % (1024 * m),
               'partition': 'p',
               'traits': ['t1'] if has_t1 else []}
+        mem_bytes = m * G
+        if odd:
+            # sizes in K that are not whole megabytes: 2G minus 1304K, so
+            # that exactly 1304K of the trait limit (2G) stay free
+            al['memory'] = '2095848K'
+            al['disk'] = '1M'
+            mem_bytes = 2095848 * 1024
         allocs.append(al)
-        avals.append((c, m * G, m * G))
+        avals.append((c, mem_bytes, (1 if odd else m) * (2 ** 20 if odd else G)))
     c = (0, 100, 150, 50)[S.choice('req_cpu', 4 if spec['n'] == 0 else 3)]
-    m = (0, 1, 3, 5)[S.choice('req_memG', 4)]
+    mi = S.choice('req_memG', 6 if spec['n'] == 1 else 4)
+    m = (0, 1, 3, 5, 0, 0)[mi]
     d = (1, 5)[S.choice('req_diskG', 2)]
     sp = S.choice('req_spelling', 2) if spec['n'] == 0 else 1
     req = {'cpu': '%d%%' % c,
            'memory': ('%dG' % m) if sp else ('%dM' % (1024 * m)),
            'disk': ('%dG' % d) if not sp else ('%dM' % (1024 * d))}
     rv = (c, m * G, d * G)
+    if mi >= 4:
+        kb = (1000, 1500)[mi - 4]        # fits / does not fit into 1304K
+        req['memory'] = '%dK' % kb
+        rv = (c, kb * 1024, d * G)
     tr = S.choice('req_traits', 3)
     if tr:
         req['traits'] = [[], ['t1']][tr - 1]
